@@ -7,6 +7,7 @@ import (
 	"fmt"
 	"os"
 
+	"verif/harness/c14"
 	"verif/harness/c17"
 	"verif/harness/c20"
 )
@@ -26,6 +27,12 @@ func main() {
 	_ = in
 	_ = mode
 	switch prop {
+	case "c14":
+		if *mode == "conc" {
+			c14.RunConc(*out)
+		} else {
+			c14.Run(*out)
+		}
 	case "c17":
 		c17.Run(*out)
 	case "c20":
